@@ -40,6 +40,52 @@ MSG_FUNCS = ('roll', 'pitch', 'yaw')
 
 PRIM = ('B', 'N', 'S')
 
+LETTERS = 'abcdefghijklmnopqrstuvwxyzABCDEFGHIJKLMNOPQRSTUVWXYZ'
+NAME_REST = LETTERS + '0123456789_'
+RESERVED_WORDS = set(mast.KEYWORDS) | set(mast.ALL_BUILTINS) | {'id', 'title', 'description', 'hz'}
+
+
+def rand_cname(ch, lead_underscore=True):
+    """A random CNAME ([_a-zA-Z][_a-zA-Z0-9]*) that is not a keyword, built-in or annotation key."""
+    for _ in range(4):
+        first = ch.pick(LETTERS + ('_' if lead_underscore else ''))
+        name = first + ''.join(ch.pick(NAME_REST) for _ in range(ch.int(0, 6)))
+        if name not in RESERVED_WORDS and name != '_':
+            return name
+    return 'zq' + str(ch.int(0, 99))
+
+
+def rand_topic(ch):
+    """A random channel name: [/~]?[a-zA-Z][0-9a-zA-Z_]*(/[a-zA-Z][0-9a-zA-Z_]*)*, not a keyword."""
+    segs = []
+    for _ in range(ch.int(1, 3)):
+        segs.append(ch.pick(LETTERS) + ''.join(ch.pick(NAME_REST) for _ in range(ch.int(0, 5))))
+    name = ch.pick(['', '', '/', '~']) + '/'.join(segs)
+    return name if name not in RESERVED_WORDS else name + '_t'
+
+
+def rand_number(ch):
+    k = ch.int(0, 7)
+    digits = lambda n: ''.join(ch.pick('0123456789') for _ in range(n))  # noqa: E731
+    if k <= 2:
+        return ('lit', 'int', str(int(digits(ch.int(1, 9)))))
+    if k == 3:
+        return ('lit', 'int', ch.pick(['0', '255', '256', '65535', '4294967296', '9223372036854775807', '1000000']))
+    if k == 4:
+        return ('lit', 'float', digits(ch.int(1, 4)) + '.' + digits(ch.int(0, 6)))
+    if k == 5:
+        return ('lit', 'float', '.' + digits(ch.int(1, 5)))
+    if k == 6:
+        return ('lit', 'float', str(int(digits(ch.int(1, 3)))) + ch.pick(['e', 'E']) + ch.pick(['', '+', '-']) + str(ch.int(0, 12)))
+    return ('lit', 'float', digits(ch.int(1, 3)) + '.' + digits(ch.int(1, 3)) + 'e' + ch.pick(['', '-']) + str(ch.int(0, 6)))
+
+
+STR_CHARS = list('abcXYZ 0189_-+*/<>=!.,:;(){}[]#@\'$%&|~^?') + ['\\"', '\\\\', '\\n', '\\t', 'é', 'ß', '☃', '日', '  ']
+
+
+def rand_string(ch):
+    return ('lit', 'str', '"' + ''.join(ch.pick(STR_CHARS) for _ in range(ch.int(0, 8))) + '"')
+
 
 def prim_code(ft):
     return {'bool': 'B', 'num': 'N', 'str': 'S'}.get(ft[0])
@@ -78,6 +124,13 @@ def schemas(ch, depth=2, small=False):
     n_extra = ch.int(0, 2 if small else 4)
     pool = NEUTRAL_FIELDS + KW_FIELDS
     names = ch.sample(pool, min_size=5 + n_extra, max_size=5 + n_extra, unique=True)
+    if ch.int(0, 2) == 0:
+        # lexical variety: some names drawn from the whole CNAME space
+        for i in range(len(names)):
+            if ch.int(0, 2) == 0:
+                cand = rand_cname(ch)
+                if cand not in names:
+                    names[i] = cand
     base = [('bool',), ('num', ch.pick(NUM_TOKENS)), ('num', 'float64'), ('str',), ('arr', ('num', 'int32'), -1)]
     if small:
         base = base[: ch.int(2, 5)]
@@ -203,7 +256,11 @@ def _lit(ch, T):
     if T == 'B':
         return ch.pick([TRUE, FALSE])
     if T == 'S':
+        if ch.int(0, 4) == 0:
+            return rand_string(ch)
         return ('lit', 'str', ch.pick(STR_LITS))
+    if ch.int(0, 5) == 0:
+        return rand_number(ch)
     if ch.int(0, 2) < 2:
         return ('lit', 'int', ch.pick(INT_LITS))
     return ('lit', 'float', ch.pick(FLOAT_LITS))
@@ -566,6 +623,12 @@ def properties(ch, depth=3, chaos=0, wild_time=False, max_width=4, meta=True, sc
     """
     ntopics = ch.int(2, 6) if shape is None else max(4, ch.int(4, 6))
     topics = ch.sample(TOPICS, min_size=ntopics, max_size=ntopics, unique=True)
+    if ch.int(0, 2) == 0:
+        for i in range(len(topics)):
+            if ch.int(0, 1) == 0:
+                cand = rand_topic(ch)
+                if cand not in topics:
+                    topics[i] = cand
     topic_schemas = {t: schemas(ch, depth=1, small=True) for t in topics}
     pc = PropCtx(topic_schemas, chaos=chaos)
     if shape is None:
